@@ -18,6 +18,7 @@ VERIF_FAIL = [
     ("invariant not satisfied before loop", "inv_entry"),
     ("invariant not satisfied at end of loop body", "inv_preserve"),
     ("loop invariant not preserved", "inv_preserve"),
+    ("loop invariant not satisfied", "inv_preserve"),
     ("decreases not satisfied", "decreases"),
     ("possible bit shift underflow/overflow", "shift"),
     ("unreachable code may be reached", "unreachable"),   # unreachable!() / panics
